@@ -1170,6 +1170,135 @@ theorem mvt_no_panic (b : Prim.Bytes) : decodeTile b ≠ .panic := by
   apply NP_bind (NP_whileRem' tileStep Bd_tileStep _ _)
   intro ls
   simp [NP, pure]
+
+/-! ### allocation trace of the whole vector-tile decoder -/
+
+/-- all allocations of a list are ≤ `n` -/
+def AllLE (n : Nat) (l : List Nat) : Prop := ∀ a ∈ l, a ≤ n
+
+theorem AllLE_nil (n : Nat) : AllLE n [] := by intro a h; simp at h
+theorem AllLE_append {n : Nat} {l1 l2 : List Nat} (h1 : AllLE n l1) (h2 : AllLE n l2) : AllLE n (l1 ++ l2) := by
+  intro a h; rcases List.mem_append.mp h with h | h
+  · exact h1 a h
+  · exact h2 a h
+theorem AllLE_mono {n m : Nat} {l : List Nat} (h : AllLE n l) (hnm : n ≤ m) : AllLE m l :=
+  fun a ha => Nat.le_trans (h a ha) hnm
+
+/-- a loop whose body shrinks the input and allocates at most what is left, allocates at most the input -/
+theorem loopAllocs_le {σ : Type} (step : σ → Reader → Outcome (σ × Reader)) (al : σ → Reader → List Nat)
+    (hstep : ∀ s r, Bd (r.rest.length - 1) (step s r)) (hal : ∀ s r, AllLE r.rest.length (al s r)) :
+    ∀ (n : Nat) (s : σ) (r : Reader), r.rest.length ≤ n → AllLE r.rest.length (loopAllocs step al s r) := by
+  intro n
+  induction n with
+  | zero =>
+    intro s r h
+    rw [loopAllocs]
+    have : r.rest.isEmpty = true := by cases hr : r.rest <;> simp_all
+    simp [this, AllLE_nil]
+  | succ n ih =>
+    intro s r h
+    rw [loopAllocs]
+    split
+    · exact AllLE_nil _
+    · refine AllLE_append (hal s r) ?_
+      have hb := hstep s r
+      split
+      · rename_i s' r' hs
+        have hlt := hb.2 s' r' hs
+        split
+        · rename_i hl
+          exact AllLE_mono (ih s' r' (by omega)) (by omega)
+        · exact AllLE_nil _
+      · exact AllLE_nil _
+      · exact AllLE_nil _
+
+theorem lenPrefixedAllocs_le (r1 : Reader) : AllLE r1.rest.length (lenPrefixedAllocs r1) :=
+  readPbfBlob_alloc_le r1
+
+/-- after the key varint the remaining input is shorter -/
+theorem key_rest_le (r r1 : Reader) (k : Nat × Nat) (h : readPbfKey r = .ok (k, r1)) : r1.rest.length ≤ r.rest.length := by
+  have := (Bd_readPbfKey r).2 k r1 h; omega
+
+theorem sub_len_le (r1 r2 : Reader) (sub : Prim.Bytes) (h : readPbfSub r1 = .ok (sub, r2)) : sub.length ≤ r1.rest.length := by
+  unfold readPbfSub at h
+  split at h
+  · rename_i n r' hv
+    have hlt := primReadVarint_lt r1 n r' hv
+    unfold Prim.subReader at h
+    split at h
+    · simp at h
+    · split at h
+      · simp at h
+      · simp at h; rw [← h.1]; simp; omega
+  · simp at h
+  · simp at h
+
+theorem valueAllocs_le (s : Option Value) (r : Reader) : AllLE r.rest.length (valueAllocs s r) := by
+  unfold valueAllocs
+  split
+  · rename_i r1 hk
+    exact AllLE_mono (lenPrefixedAllocs_le r1) (key_rest_le r r1 _ hk)
+  · exact AllLE_nil _
+
+theorem featureAllocs_le (s : Feature) (r : Reader) : AllLE r.rest.length (featureAllocs s r) := by
+  unfold featureAllocs
+  split
+  · rename_i r1 hk
+    exact AllLE_mono (lenPrefixedAllocs_le r1) (key_rest_le r r1 _ hk)
+  · exact AllLE_nil _
+
+theorem layerAllocs_le (s : LayerSt) (r : Reader) : AllLE r.rest.length (layerAllocs s r) := by
+  unfold layerAllocs
+  split
+  · rename_i r1 hk
+    exact AllLE_mono (lenPrefixedAllocs_le r1) (key_rest_le r r1 _ hk)
+  · rename_i r1 hk
+    exact AllLE_mono (lenPrefixedAllocs_le r1) (key_rest_le r r1 _ hk)
+  · rename_i r1 hk
+    split
+    · rename_i sub r2 hs
+      have h1 := loopAllocs_le featureStep featureAllocs Bd_featureStep featureAllocs_le _ Feature.empty (Reader.ofBytes sub) (Nat.le_refl _)
+      have h2 := sub_len_le r1 r2 sub hs
+      have h3 := key_rest_le r r1 _ hk
+      exact AllLE_mono h1 (by simp [Reader.ofBytes]; omega)
+    · exact AllLE_nil _
+  · rename_i r1 hk
+    split
+    · rename_i sub r2 hs
+      have h1 := loopAllocs_le valueStep valueAllocs Bd_valueStep valueAllocs_le _ none (Reader.ofBytes sub) (Nat.le_refl _)
+      have h2 := sub_len_le r1 r2 sub hs
+      have h3 := key_rest_le r r1 _ hk
+      exact AllLE_mono h1 (by simp [Reader.ofBytes]; omega)
+    · exact AllLE_nil _
+  · exact AllLE_nil _
+
+theorem tileAllocs_le (s : List Layer) (r : Reader) : AllLE r.rest.length (tileAllocs s r) := by
+  unfold tileAllocs
+  split
+  · rename_i r1 hk
+    split
+    · rename_i sub r2 hs
+      have h1 := loopAllocs_le layerStep layerAllocs Bd_layerStep layerAllocs_le _ LayerSt.init (Reader.ofBytes sub) (Nat.le_refl _)
+      have h2 := sub_len_le r1 r2 sub hs
+      have h3 := key_rest_le r r1 _ hk
+      exact AllLE_mono h1 (by simp [Reader.ofBytes]; omega)
+    · exact AllLE_nil _
+  · exact AllLE_nil _
+
+/-- **allocation bound for `VectorTile::from_blob`**: every announced-length allocation on the way
+    through tile → layers → features / values (layer names, keys, string values, geometry blobs) is
+    ≤ |input|, for every input (since 4706f789) -/
+theorem mvt_alloc_le (input : Prim.Bytes) : ∀ a ∈ mvtAllocs input, a ≤ input.length := by
+  have := loopAllocs_le tileStep tileAllocs Bd_tileStep tileAllocs_le _ [] (Reader.ofBytes input) (Nat.le_refl _)
+  simpa [mvtAllocs, Reader.ofBytes, AllLE] using this
+
+/-- F13 on the whole decoder before 4706f789: the 8-byte tile `1a 06 0a 80 80 80 80 20`
+    (tile → layer → name of announced length 2^33) asks for 8 GiB -/
+theorem old_mvt_allocates_announced_length :
+    mvtNameAllocOld [0x1a, 0x06, 0x0a, 0x80, 0x80, 0x80, 0x80, 0x20] = [2 ^ 33] := by decide
+
+/-- … the current code asks for at most 8 bytes on it -/
+example : ∀ a ∈ mvtAllocs [0x1a, 0x06, 0x0a, 0x80, 0x80, 0x80, 0x80, 0x20], a ≤ 8 := mvt_alloc_le _
 end MvtNP
 
 end VtProps.C19
